@@ -41,6 +41,7 @@ type Step struct {
 
 	Env   *EnvSpec  `json:"env,omitempty"`
 	Items []EnvSpec `json:"items,omitempty"`
+	Bulk  int       `json:"bulk,omitempty"` // enqueue_batch: Bulk copies of Items[0], each under a new id
 
 	Route  string        `json:"route,omitempty"`
 	Target string        `json:"target,omitempty"`
